@@ -49,6 +49,8 @@ def main(argv=None):
             results.append(f.result())
     extra = []
     for step in cfg.get("steps", []):
+        if step.get("tiers") and tier not in step["tiers"]:
+            continue
         from . import steps
         extra.append(steps.run_step(step, pid, tier, seed))
 
@@ -185,6 +187,13 @@ def main(argv=None):
         "explanation": cfg.get("explanation", ""),
         "steps": [{k: v for k, v in e.items() if k not in ("failures",)} for e in extra],
     }
+    if drv and drv.get("cases"):
+        # exploration-style counts of the bounded driver (measured by the driver binary on this run); NOT part of the proof
+        coverage["evaluations"] = drv["cases"]
+        coverage["distinct_nontrivial"] = drv.get("distinct", 0)
+        coverage["rule"] = ("bounded native driver drivers/%s.rs: small-scope enumeration + seeded random generation of inputs / operation "
+                            "sequences against the real crate, oracle written from the property statement; distinct = distinct generated cases "
+                            "(see drivers/notes/%s.md)" % (pid, pid))
     if level != "proof":
         coverage["explanation"] = cfg.get("explanation", "") or "bounded stand-in; see steps"
     ev = {
